@@ -4,6 +4,7 @@ package main
 
 import (
 	"bufio"
+	"bytes"
 	"fmt"
 	"io"
 	"math/rand"
@@ -51,7 +52,7 @@ func genBlock(r *rand.Rand, n int, tier string, out *bufio.Writer) {
 		var sb strings.Builder
 		fmt.Fprintf(&sb, "block %s %d %s %d %d %s %s %d", kind, cached, pick(r, algs), 1+r.Intn(3), maxMem, hxs(head), hx(body), nops)
 		for j := 0; j < nops; j++ {
-			drain := pick(r, []int{-1, -1, 0, 1, 3, len(head), len(head) + 1, total / 2, total, total + 5})
+			drain := pick(r, []int{-1, -1, 0, 1, 3, len(head), len(head) + 1, total / 2, total, total + 5, 1000, 1001, 1000 + len(head), 1000 + total/2})
 			switch x := r.Intn(100); {
 			case x < 30:
 				fmt.Fprintf(&sb, " raw %d", drain)
@@ -88,6 +89,19 @@ func drainReader(rd io.Reader, k int) string {
 			return "d:READERR"
 		}
 		return "d:" + hx(b)
+	}
+	if k >= 1000 {
+		// read k-1000 bytes, then hand the reader to io.Copy (which uses WriteTo when there is one)
+		buf := make([]byte, k-1000)
+		n, err := io.ReadFull(rd, buf)
+		if err != nil && err != io.EOF && err != io.ErrUnexpectedEOF {
+			return "d:READERR"
+		}
+		var rest bytes.Buffer
+		if _, err := io.Copy(&rest, rd); err != nil {
+			return "d:READERR"
+		}
+		return "d:" + hx(append(buf[:n], rest.Bytes()...))
 	}
 	buf := make([]byte, k)
 	n, err := io.ReadFull(rd, buf)
